@@ -151,6 +151,9 @@ func c03body(sc c03cfg) func() {
 			l := w.Listeners["example.org:5222"]
 			accept := l.Accept
 			l.Accept = func(k int, c *vnet.Conn) (func(), error) {
+				if k != last {
+					return accept(k, c)
+				}
 				nw := 0
 				c.Peer().WriteFault = func(_ *vnet.Conn, p []byte) (int, error) {
 					nw++
@@ -344,9 +347,11 @@ func TestVerifC03(t *testing.T) {
 	}
 	for _, sm := range []bool{false, true} {
 		for _, starttls := range []string{"absent", "required"} {
-			for _, resource := range []bool{false, true} {
-				sc := c03cfg{insecure: true, resource: resource, sm: sm, starttls: starttls, session: "mandatory", smAdv: true, writeFault: true}
-				scs = append(scs, hx.Scenario{Name: sc.name(), Opt: vrt.Options{Bound: 0}, Body: c03body(sc), Verdict: c03verdict})
+			for _, session := range []string{"absent", "mandatory"} {
+				for _, resumable := range []bool{false, true} {
+					sc := c03cfg{insecure: true, resource: sm, sm: sm, resumable: resumable, starttls: starttls, session: session, smAdv: true, writeFault: true}
+					scs = append(scs, hx.Scenario{Name: sc.name(), Opt: vrt.Options{Bound: 0}, Body: c03body(sc), Verdict: c03verdict})
+				}
 			}
 		}
 	}
